@@ -452,6 +452,26 @@ theorem add_result (c : Cfg) (a x : Opd) (d : Domain) (q : Quantity) (u : U)
     · cases hc
     · exact hcls _ hc
 
+/-- conversely (the refusals above are not vacuous successes of a model that refuses everything):
+    operands of the same quantity in the same domain that pass the units test are accepted -/
+theorem add_accepts_same (c : Cfg) (a x : Opd) (hq : a.q = x.q) (hd : a.dom = x.dom)
+    (hu : unitsClash T c a x = false) : compatAdd T c a x = .ok (a.dom, a.q) := by
+  unfold compatAdd
+  rw [hu]
+  simp only [Bool.false_eq_true, if_false]
+  unfold compatClass compatRules
+  apply firstMatch_spec_enabled (fun r => r = Except.ok (a.dom, a.q))
+  · intro r hr hg
+    simp only [compatRulesHead, compatRulesTail, List.cons_append, List.nil_append, List.mem_cons,
+      List.mem_nil_iff, or_false] at hr
+    rcases hr with rfl | rfl | rfl | rfl | rfl | rfl | rfl | rfl | rfl | rfl | rfl | rfl | rfl <;>
+      first
+        | rfl
+        | (exfalso; simp [hd] at hg; done)
+        | (simp only [hq, hd]; done)
+  · exact ⟨(decide (a.q = x.q) && decide (a.dom = x.dom), .ok (a.dom, a.q)),
+      by simp [compatRulesHead], by simp [hq, hd]⟩
+
 /-- with check_units on, operands whose canonical units differ are refused unless one of them is
     zero or (loose_units) reports `is_undefined` -/
 theorem add_checks_units (l k : Bool) (a x : Opd)
